@@ -25,7 +25,7 @@ theorem NNP.trans {a b c : World} (h1 : NNP a b) (h2 : NNP b c) : NNP a c :=
   fun q F hF h => h1 q F hF (h2 q F hF h)
 
 theorem NNP.of_fp {m : Mask} {w w' : World} (h : Fp m w w') (hb : m.blocked = false) : NNP w w' :=
-  fun q F _ hq => by rw [← h.2.2.2.2.2.2.2.2.2 hb q]; exact hq
+  fun q F _ hq => by rw [← h.2.2.2.2.2.2.2.2.2.1 hb q]; exact hq
 
 theorem NNP.of_same {w w' : World} (h : Same w w') : NNP w w' := NNP.of_fp (Same.fp {} h) rfl
 
@@ -177,7 +177,8 @@ theorem execCmd_nnp (w : World) (p : Pid) (c : Cmd) (hc : ∀ pl n, c ≠ .poolA
       · exact NNP.refl w
       · split
         · exact NNP.refl w
-        · refine NNP.trans (NNP.trans (NNP.of_same (addAwait_same _ _ _)) (NNP.of_same (modProc_same _ _ _ ?_ ?_))) (NNP.block _ _ _ rfl)
+        · refine NNP.trans (NNP.trans (NNP.of_same (addAwait_same _ _ _)) (NNP.of_same (modProc_same _ _ _ ?_ ?_ ?_))) (NNP.block _ _ _ rfl)
+          · intro _; rfl
           · intro _; rfl
           · intro _; rfl
     case waitEvent v =>
@@ -185,7 +186,7 @@ theorem execCmd_nnp (w : World) (p : Pid) (c : Cmd) (hc : ∀ pl n, c ≠ .poolA
       split
       · exact NNP.refl w
       · refine NNP.trans (NNP.trans ?_ (NNP.of_same (addAwait_same _ _ _))) (NNP.block _ _ _ rfl)
-        exact NNP.of_same ⟨rfl, rfl, rfl, rfl, rfl, rfl, id, rfl, fun _ => rfl, fun _ => rfl⟩
+        exact NNP.of_same ⟨rfl, rfl, rfl, rfl, rfl, rfl, id, rfl, fun _ => rfl, fun _ => rfl, fun _ => rfl⟩
     case acquire r => simp only [execCmd]; exact acquireStep_nnp _ _ _
     case preempt r =>
       simp only [execCmd]
@@ -399,7 +400,7 @@ theorem PoolFull.preserved : Preserved PoolFull where
   same hs h := ⟨h.1.same hs, h.2.of_nnp (NNP.of_same hs)⟩
   tick _ h := ⟨PoolInv.of_viewSame ⟨rfl, fun _ => rfl, fun _ _ => Iff.rfl⟩ h.1, h.2⟩
   finish w p v st h := ⟨PoolInv.finishProc w p v st h.1, h.2.of_nnp (finishProc_nnp w p v st)⟩
-  clear w p f hf hb h := ⟨PoolInv.of_fp (modProc_fp_blocked w p f hf) rfl rfl h.1, h.2.of_nnp (NNP.clear w p f hb)⟩
+  clear w p f hf hb hp h := ⟨PoolInv.of_fp (modProc_fp_blocked w p f hf hp) rfl rfl h.1, h.2.of_nnp (NNP.clear w p f hb)⟩
   exec w p c hp h := by
     cases c
     case poolAcquire pl n =>
